@@ -18,21 +18,38 @@
       correspondence and by the harness' reduce-* oracle, not proved.
     * rule1_closed_form: the side conditions of the over-time rule (Range ≤ step, = step for stddev/stdvar).
     * moveOneLeft_shape: every cursor move on every time grid moves r by one, keeps l ≤ r and never moves l right.
-      PARTIAL (statement at the end of the file): over_time_is_definition on uniform grids.
+    * over_time_is_definition / quantile_over_time_is_definition (via SH.Lemmas.PromWindow.overTimeWith_uniform, loop invariant
+      over newWindow / moveOneLeft / setRight / fillPrefix): on every uniform grid, for every series, range and *_over_time
+      function the cursor-driven evaluation returns at point i the function of the k points ending at i (k = ⌈w/s⌉ not strict,
+      ⌊w/s⌋ strict; window_timestamps: = the points with timestamp in (t_i − w, t_i] / whose bucket lies in the range), the
+      nil value when none is present, missing for i < k.  PARTIAL: non-uniform (multi-LOD) grids are correspondence-only.
+    * bucket_group_eq_pooled, groupPoint_pushdown, pushed_query_is_aggregate, rule0..3_expression, reduction_sound_sum:
+      reduction soundness lifted to the storage query over events and to whole expressions: under exactly the rules' side
+      conditions the evaluator's result for the four rule shapes IS the storage query, and that query's every point is the
+      engine aggregate of the per-series storage values, for what ∈ sum/sumsec/count/countsec/min/max (avg: reduce_avg_sound).
+      Excluded with witness: stdvar/stddev (stdvar_pushdown_is_not_population — the known finding).
+    * quantile_def (∀ q ∈ [0,1]: linear interpolation between the closest ranks of the sorted present points, with bounds),
+      aggQuantile_perm (function of the multiset of present points), topk_def / topK_eq (per-series weight semantics).
     * aggGroup_repo_violates, aggStdVar_repo_violates, repo_reduction_violates: the pinned tree's behaviour (Cfg.repo)
       contradicts the property on concrete inputs; Cfg.fixed = fixes/C27-*.diff.
     * binApply_self / binApply_matched: vector-vector binary operators (one-to-one): an operand matched against itself loses
       no series; every result series stems from a left and a right series with equal matching label sets and carries them.
-  topk/bottomk, quantile (q > 0), stddev on non-squares, grouping keys: correspondence + def-* oracle only.
+  stddev on non-squares, grouping keys (dedupKeys order), the weight function of topk: correspondence + def-* oracle only.
   Float rounding (numeric stability) is outside the exact model: judged by the harness' def-*-numeric oracle only.
 -/
 import SH.Model.PromEval
+import SH.Lemmas.PromWindow
+import SH.Lemmas.PromReduce
 import Mathlib.Algebra.Order.Field.Rat
+import Mathlib.Data.List.Sort
+import Mathlib.Data.Rat.Floor
+import Mathlib.Tactic.Positivity
+import Mathlib.Tactic.NormNum
 import Mathlib.Tactic.Ring
 import Mathlib.Tactic.Linarith
 
 namespace SH.Props.C27
-open SH.PromEval
+open SH.PromEval SH.PromWindow SH.PromReduce
 
 /-! helper lemmas -/
 
@@ -570,13 +587,7 @@ theorem moveOneLeft_shape (t : List Int) (v : List Val) (wd wd' : Wnd) (h : move
 example : moveOneLeft [0, 5, 10] [some 1, none, some 3] (newWindow 3 10 5 false)
     = some { w := 10, s := 5, l := 1, r := 2, n := 1, strict := false, done := false } := by decide +kernel
 
-/-
-  Full statement not proved (over_time_is_definition): on a uniform grid t[i] = t0 + i·s with range w = k·s, k ≥ 1, for
-  every r ≥ k the cursor stops at l = r − k + 1 with n = number of present points of v[l..r], hence
-  `overTime t w s f v` at r = f (present points of v[r−k+1 .. r]) and missing for r < k (index 0 is a guard point).
-  The cursor is modelled move for move and compared with the real one on random (also non-uniform) grids; the harness'
-  def-*-over-time oracle recomputes every window from this definition.
--/
+/- over_time_is_definition is proved below (uniform grids); non-uniform (multi-LOD) grids: correspondence + oracle only. -/
 
 /-- over-time functions on a concrete series (uniform 5 s grid): sum over 10 s = the two points of the window, missing
     points skipped; count is 0 (not missing) on an empty window; a strict function sees an empty window when the range is
@@ -670,6 +681,555 @@ example :
     binApply .add .dflt [⟨[(1, 1)], [some 2]⟩, ⟨[(1, 1)], [some 3]⟩] [⟨[(1, 1)], [some 1]⟩] = none := by decide +kernel
 example :
     binApply .gt .dflt [⟨[], [some 7, some 7]⟩] [⟨[(1, 1)], [some 5, some 9]⟩] = some [⟨[(1, 1)], [some 5, none]⟩] := by
+  decide +kernel
+
+
+
+/-! ### over-time functions on a uniform grid compute their definition over exactly the points of the range -/
+
+/-- **over_time_is_definition** — on a uniform grid t[i] = t0 + i·s, for every series `v`, every range `w` and every
+    `*_over_time` function `f`, the cursor-driven evaluation (newWindow / moveOneLeft / setValueAtRight / fillPrefixWith)
+    returns at point `i` the function of the `k` points ending at `i` — `k` = ⌈w/s⌉ for avg/min/max/last (narrowest window
+    at least `w` wide), ⌊w/s⌋ for sum/count/stdvar/stddev (widest window not wider than `w`); by `window_timestamps`
+    these are exactly the points with timestamp in (t_i − w, t_i] when `w` is a multiple of `s` — the function's nil value
+    (0 for count, missing otherwise) when none of them is present, and missing for the first `k` points (index 0 is a
+    guard point: no complete window to its right). -/
+theorem over_time_is_definition (t : List Int) (t0 s w : Int) (k : Nat) (f : OtFn) (v : List Val)
+    (hg : uniform t t0 s) (hk : kSpec (otStrict f) w s k) (hv : v.length = t.length) (i : Nat) (hi : i < t.length) :
+    (overTime t w s f v).getD i none =
+      if i < k then none
+      else if (present (slice v (i + 1 - k) i)).length = 0 then otNil f
+      else otApply f (slice v (i + 1 - k) i) := by
+  have h := overTimeWith_uniform ⟨t, t0, s, w, otStrict f, k, hg, hk⟩ (otApply f) (otNil f) v hv i hi
+  unfold overTime
+  rw [h]
+  unfold expAt
+  by_cases hik : i < k
+  · simp [hik]
+  · simp only [hik, if_false]
+    by_cases h0 : (present (slice v (i + 1 - k) i)).length = 0 <;> simp [h0]
+
+/-- the same for quantile_over_time (strict window, q ∈ [0,1]): the quantile of the present points of the window -/
+theorem quantile_over_time_is_definition (t : List Int) (t0 s w : Int) (k : Nat) (q : Rat) (v : List Val)
+    (hg : uniform t t0 s) (hk : kSpec true w s k) (hv : v.length = t.length) (i : Nat) (hi : i < t.length) :
+    (quantileOverTime t w s q v).getD i none =
+      if i < k then none else aggQuantile q (slice v (i + 1 - k) i) := by
+  have h := overTimeWith_uniform ⟨t, t0, s, w, true, k, hg, hk⟩ (fun s => quantileSorted q (isort (present s))) none v hv i hi
+  unfold quantileOverTime
+  rw [h]
+  unfold expAt
+  by_cases hik : i < k
+  · simp [hik]
+  · simp only [hik, if_false]
+    by_cases h0 : (present (slice v (i + 1 - k) i)).length = 0
+    · have : present (slice v (i + 1 - k) i) = [] := List.eq_nil_of_length_eq_zero h0
+      simp [aggQuantile, this, isort, quantileSorted]
+    · simp [h0, aggQuantile]
+
+/-- every over-time function sees the window only through its present points -/
+theorem otApply_present_only (f : OtFn) (s : List Val) : otApply f s = otApply f ((present s).map some) := by
+  cases f
+  · simp [otApply, aggAvg, present_map_some]
+  · exact aggMin_present s
+  · exact aggMax_present s
+  all_goals simp [otApply, lastPresent, present_map_some]
+
+/-- non-vacuity: the 5 s grid of the examples below with a 10 s range (two points) and a 7 s range (two points when the
+    window stretches, one when it is strict) -/
+example : uniform [0, 5, 10, 15, 20] 0 5 ∧ kSpec false 10 5 2 ∧ kSpec true 10 5 2 ∧ kSpec false 7 5 2 ∧ kSpec true 7 5 1 := by
+  refine ⟨?_, ?_, ?_, ?_, ?_⟩
+  · intro i hi
+    have : i = 0 ∨ i = 1 ∨ i = 2 ∨ i = 3 ∨ i = 4 := by
+      have : i < 5 := hi
+      omega
+    rcases this with rfl | rfl | rfl | rfl | rfl <;> rfl
+  all_goals (unfold kSpec; decide)
+example : overTime [0, 5, 10, 15, 20] 7 5 .avg [some 1, some 2, none, some 4, some 8] = [none, none, some 2, some 4, some 6] ∧
+    overTime [0, 5, 10, 15, 20] 7 5 .sum [some 1, some 2, none, some 4, some 8] = [none, some 2, none, some 4, some 8] := by
+  decide +kernel
+
+
+/-! ### reduction soundness lifted from rows to the storage query over events and to whole expressions -/
+
+/-- the point of one group of stored series at time index `i`, as QuerySeries computes it (queryStorage's inner term) -/
+def groupPoint (st : Store) (ts : TS) (w : What) (range : Int) (members : List Nat) (i : Nat) : Val :=
+  (mergeRows (bucketRows st members (ts.times.getD i 0) (ts.times.getD i 0 + ts.width i))).map
+    (rowValue w (queryStep ts range (ts.width i)) (ts.width i))
+
+/-- the stored series whose tags project to `k` under the query's grouping -/
+def membersOf (st : Store) (groupBy : List Nat) (k : Tags) : List Nat :=
+  (((List.range st.tags.length).map (fun i => (keyOf false groupBy (st.tags.getD i []), i))).filter (fun p => p.1 = k)).map (·.2)
+
+/-- queryStorage, restated: one series per grouping key with `groupPoint` at every time index -/
+theorem queryStorage_eq (st : Store) (ts : TS) (w : What) (groupBy : List Nat) (range : Int) :
+    queryStorage st ts w groupBy range =
+      ((dedupKeys ((List.range st.tags.length).map (fun i => keyOf false groupBy (st.tags.getD i [])))).map (fun k =>
+        ({ tags := k, vals := (List.range ts.times.length).map (groupPoint st ts w range (membersOf st groupBy k)) } : Series))).filter
+        (fun s => (present s.vals).length ≠ 0) := by
+  unfold queryStorage membersOf groupPoint
+  simp only [List.map_map]
+  rfl
+
+theorem membersOf_nodup (st : Store) (groupBy : List Nat) (k : Tags) : (membersOf st groupBy k).Nodup := by
+  unfold membersOf
+  have h : ∀ (l : List Nat), l.Nodup →
+      (((l.map (fun i => (keyOf false groupBy (st.tags.getD i []), i))).filter (fun p => p.1 = k)).map (·.2)).Nodup := by
+    intro l hl
+    induction l with
+    | nil => simp
+    | cons a as ih =>
+      have ha : a ∉ as := (List.nodup_cons.mp hl).1
+      have has := ih (List.nodup_cons.mp hl).2
+      simp only [List.map_cons, List.filter_cons]
+      split
+      · simp only [List.map_cons, List.nodup_cons]
+        refine ⟨?_, has⟩
+        intro hmem
+        simp only [List.mem_map, List.mem_filter] at hmem
+        obtain ⟨p, ⟨⟨i, hi, rfl⟩, _⟩, hp⟩ := hmem
+        exact ha (hp ▸ hi)
+      · exact has
+  exact h _ List.nodup_range
+
+/-- lifting a row-level push-down fact to a group of stored series in a bucket -/
+theorem group_lift (st : Store) (members : List Nat) (hnd : members.Nodup) (lo hi : Int) (f : Row → Rat) (agg : List Val → Val)
+    (hrow : ∀ per : List (Option Row), (pooled per).map f = agg (per.map (Option.map f))) :
+    (mergeRows (bucketRows st members lo hi)).map f =
+      agg (members.map (fun m => (mergeRows (bucketRows st [m] lo hi)).map f)) := by
+  rw [bucket_group_eq_pooled st members hnd lo hi]
+  have := hrow (members.map (fun m => mergeRows (bucketRows st [m] lo hi)))
+  unfold pooled at this
+  rw [this, List.map_map]
+  rfl
+
+/-- **push-down of sum / count / min / max over events** (∀ storage, ∀ group of series, ∀ time index, ∀ range/steps): what
+    the pre-aggregating storage returns for the whole group equals the engine's aggregate over what it returns for every
+    series of the group separately (missing where the series has no row in the bucket). -/
+theorem groupPoint_pushdown (st : Store) (ts : TS) (range : Int) (members : List Nat) (hnd : members.Nodup) (i : Nat) :
+    groupPoint st ts .sumsec range members i = aggSum (members.map (fun m => groupPoint st ts .sumsec range [m] i)) ∧
+    groupPoint st ts .sum range members i = aggSum (members.map (fun m => groupPoint st ts .sum range [m] i)) ∧
+    groupPoint st ts .countsec range members i = aggSum (members.map (fun m => groupPoint st ts .countsec range [m] i)) ∧
+    groupPoint st ts .count range members i = aggSum (members.map (fun m => groupPoint st ts .count range [m] i)) ∧
+    groupPoint st ts .min range members i = aggMin (members.map (fun m => groupPoint st ts .min range [m] i)) ∧
+    groupPoint st ts .max range members i = aggMax (members.map (fun m => groupPoint st ts .max range [m] i)) := by
+  unfold groupPoint
+  exact ⟨group_lift st members hnd _ _ _ aggSum (fun per => (reduce_sum_sound per _ _).1),
+         group_lift st members hnd _ _ _ aggSum (fun per => (reduce_sum_sound per _ _).2),
+         group_lift st members hnd _ _ _ aggSum (fun per => (reduce_count_sound per _ _).1),
+         group_lift st members hnd _ _ _ aggSum (fun per => (reduce_count_sound per _ _).2),
+         group_lift st members hnd _ _ _ aggMin (fun per => reduce_min_sound per _ _),
+         group_lift st members hnd _ _ _ aggMax (fun per => reduce_max_sound per _ _)⟩
+
+/-- non-vacuity: two series in one group, one of them without an event in the bucket of index 1 -/
+example : groupPoint exStore exTS .sumsec 0 [0, 1] 1 = some 12 ∧ groupPoint exStore exTS .sumsec 0 [0, 1] 2 = some 4 ∧
+    groupPoint exStore exTS .sumsec 0 [1] 2 = none := by decide +kernel
+
+
+/-- the tag indices a pushed-down aggregation groups the storage query by -/
+def pushGroupBy (without : Bool) (labels : List Nat) : List Nat :=
+  if without then allTags.filter (fun t => !labels.contains t) else labels
+
+/-- rule #0, whole expression: `op by/without (ls) (m)` with op ∈ sum/count/min/max/avg IS the storage query with the rule's
+    `what`, grouped by the aggregation's labels (no side condition). -/
+theorem rule0_expression (st : Store) (ts : TS) (op : AggOp) (w : What) (wo : Bool) (ls : List Nat) (hw : aggWhat op = some w) :
+    evalChain Cfg.fixed st ts none [.agg op wo ls] = queryStorage st ts w (pushGroupBy wo ls) 0 := by
+  unfold evalChain
+  simp [astList, astOf, hw, evalReductionRules, rulesLoop, rulesLevel, reductionRules, applyStep, reduceAgg, reduceMatrix,
+    reduceOverTime, reduceSubquery, reduceWhat, List.range, List.range.loop, Cfg.fixed, pushGroupBy]
+
+/-- rule #1, whole expression: `f_over_time(m[r])` is the storage query `what = f, Range = r` over all tags exactly when
+    r ≤ step (= step for stddev/stdvar); otherwise the engine evaluates the window over the default (avg) series. -/
+theorem rule1_expression (st : Store) (ts : TS) (f : OtFn) (w : What) (ne : Bool) (r : Int) (hw : otWhat f = (some w, ne)) :
+    evalChain Cfg.fixed st ts none [.ot f r false] =
+      if r > ts.lodStep ∨ (ne = true ∧ r ≠ ts.lodStep)
+      then (queryStorage st ts .avg allTags 0).map (fun s => { s with vals := overTime ts.times r ts.lodStep f s.vals })
+      else queryStorage st ts w allTags r := by
+  unfold evalChain
+  have h := rule1_closed_form w ne r ts.lodStep
+  simp only [astList, astOf, hw, List.append_nil, Cfg.fixed, if_true, Bool.false_eq_true, if_false]
+  rw [h]
+  by_cases h1 : r > ts.lodStep
+  · simp [h1, applyNode]
+  · by_cases h2 : (ne && decide (r ≠ ts.lodStep)) = true
+    · have h2' : ne = true ∧ r ≠ ts.lodStep := by simpa using h2
+      simp [h1, h2, h2', applyNode]
+    · have h2' : ¬ (ne = true ∧ r ≠ ts.lodStep) := by simpa using h2
+      simp only [h1, h2, if_false, Bool.false_eq_true]
+      simp [h1, h2']
+
+theorem reduceWhat_none (b : What) : reduceWhat none b = (some b, true) := rfl
+
+/-- rule #2, whole expression: `op by/without (ls) (f_over_time(m[r]))` is ONE storage query (the blended `what`, the
+    aggregation's grouping, Range = r) when r ≤ step (= step for stddev/stdvar) and the two `what`s are compatible. -/
+theorem rule2_expression (st : Store) (ts : TS) (f : OtFn) (op : AggOp) (w1 w2 w : What) (ne wo : Bool) (ls : List Nat) (r : Int)
+    (hw1 : otWhat f = (some w1, ne)) (hw2 : aggWhat op = some w2) (hcomp : reduceWhat (some w1) w2 = (some w, true))
+    (hr : r ≤ ts.lodStep) (hne : ne = true → r = ts.lodStep) :
+    evalChain Cfg.fixed st ts none [.ot f r false, .agg op wo ls] = queryStorage st ts w (pushGroupBy wo ls) r := by
+  have hr' : ¬ r > ts.lodStep := not_lt.mpr hr
+  unfold evalChain
+  cases ne with
+  | false =>
+    simp [astList, astOf, hw1, hw2, hcomp, reduceWhat_none, evalReductionRules, rulesLoop, rulesLevel, reductionRules, applyStep,
+      reduceAgg, reduceMatrix, reduceOverTime, reduceSubquery, List.range, List.range.loop, Cfg.fixed, pushGroupBy, hr']
+  | true =>
+    have he : r = ts.lodStep := hne rfl
+    subst he
+    simp [astList, astOf, hw1, hw2, hcomp, reduceWhat_none, evalReductionRules, rulesLoop, rulesLevel, reductionRules, applyStep,
+      reduceAgg, reduceMatrix, reduceOverTime, reduceSubquery, List.range, List.range.loop, Cfg.fixed, pushGroupBy]
+
+/-- rule #3, whole expression: `f_over_time((op by/without (ls) (m))[r:])` likewise. -/
+theorem rule3_expression (st : Store) (ts : TS) (f : OtFn) (op : AggOp) (w1 w2 w : What) (ne wo : Bool) (ls : List Nat) (r : Int)
+    (hw1 : otWhat f = (some w1, ne)) (hw2 : aggWhat op = some w2) (hcomp : reduceWhat (some w2) w1 = (some w, true))
+    (hr : r ≤ ts.lodStep) (hne : ne = true → r = ts.lodStep) :
+    evalChain Cfg.fixed st ts none [.agg op wo ls, .ot f r true] = queryStorage st ts w (pushGroupBy wo ls) r := by
+  have hr' : ¬ r > ts.lodStep := not_lt.mpr hr
+  unfold evalChain
+  cases ne with
+  | false =>
+    simp [astList, astOf, hw1, hw2, hcomp, reduceWhat_none, evalReductionRules, rulesLoop, rulesLevel, reductionRules, applyStep,
+      reduceAgg, reduceMatrix, reduceOverTime, reduceSubquery, List.range, List.range.loop, Cfg.fixed, pushGroupBy, hr']
+  | true =>
+    have he : r = ts.lodStep := hne rfl
+    subst he
+    simp [astList, astOf, hw1, hw2, hcomp, reduceWhat_none, evalReductionRules, rulesLoop, rulesLevel, reductionRules, applyStep,
+      reduceAgg, reduceMatrix, reduceOverTime, reduceSubquery, List.range, List.range.loop, Cfg.fixed, pushGroupBy]
+
+example : reduceWhat (some .sum) .sumsec = (some .sum, true) ∧ reduceWhat (some .sumsec) .sum = (some .sum, true) ∧
+    reduceWhat (some .min) .min = (some .min, true) ∧ (reduceWhat (some .sum) .min).2 = false := by decide
+
+
+/-- the `what`s whose push-down is exact, with the engine aggregator they correspond to -/
+def exactPush : What → Option (List Val → Val)
+  | .sumsec => some aggSum | .sum => some aggSum | .countsec => some aggSum | .count => some aggSum
+  | .min => some aggMin | .max => some aggMax
+  | _ => none
+
+theorem groupPoint_exactPush (st : Store) (ts : TS) (w : What) (agg : List Val → Val) (hw : exactPush w = some agg)
+    (range : Int) (members : List Nat) (hnd : members.Nodup) (i : Nat) :
+    groupPoint st ts w range members i = agg (members.map (fun m => groupPoint st ts w range [m] i)) := by
+  have h := groupPoint_pushdown st ts range members hnd i
+  cases w <;> simp only [exactPush, Option.some.injEq] at hw <;> (try cases hw) <;> (try subst hw)
+  · exact h.2.2.2.1
+  · exact h.2.2.1
+  · exact h.2.2.2.2.1
+  · exact h.2.2.2.2.2
+  · exact h.2.1
+  · exact h.1
+
+/-- **a pushed-down storage query is the engine's aggregation of the per-series storage values** (whole query: every group,
+    every time index; ∀ storage, time scale, grouping, Range): for what ∈ sum/sumsec/count/countsec/min/max the answer of
+    `QuerySeries(what, groupBy, Range)` has, for every grouping key, the points agg_what(values of the group's stored
+    series, each asked for separately with the same what and Range). -/
+theorem pushed_query_is_aggregate (st : Store) (ts : TS) (w : What) (agg : List Val → Val) (hw : exactPush w = some agg)
+    (groupBy : List Nat) (range : Int) :
+    queryStorage st ts w groupBy range =
+      ((dedupKeys ((List.range st.tags.length).map (fun i => keyOf false groupBy (st.tags.getD i [])))).map (fun k =>
+        ({ tags := k, vals := (List.range ts.times.length).map (fun i =>
+            agg ((membersOf st groupBy k).map (fun m => groupPoint st ts w range [m] i))) } : Series))).filter
+        (fun s => (present s.vals).length ≠ 0) := by
+  rw [queryStorage_eq]
+  congr 1
+  apply List.map_congr_left
+  intro k _
+  congr 1
+  apply List.map_congr_left
+  intro i _
+  exact groupPoint_exactPush st ts w agg hw range _ (membersOf_nodup st groupBy k) i
+
+/-- **reduction soundness, whole expressions** — the four rule shapes with `sum` (likewise min, max; count with countsec/count):
+    under exactly the rules' side conditions the evaluator's result IS the grouped aggregate of per-series storage values. -/
+theorem reduction_sound_sum (st : Store) (ts : TS) (wo : Bool) (ls : List Nat) (r : Int) (hr : r ≤ ts.lodStep) :
+    let grouped (w : What) (G : List Nat) (rng : Int) : List Series :=
+      ((dedupKeys ((List.range st.tags.length).map (fun i => keyOf false G (st.tags.getD i [])))).map (fun k =>
+        ({ tags := k, vals := (List.range ts.times.length).map (fun i =>
+            aggSum ((membersOf st G k).map (fun m => groupPoint st ts w rng [m] i))) } : Series))).filter
+        (fun s => (present s.vals).length ≠ 0)
+    -- #0  sum by/without (ls) (m)
+    evalChain Cfg.fixed st ts none [.agg .sum wo ls] = grouped .sumsec (pushGroupBy wo ls) 0 ∧
+    -- #1  sum_over_time(m[r]),  r ≤ step
+    evalChain Cfg.fixed st ts none [.ot .sum r false] = grouped .sum allTags r ∧
+    -- #2  sum by/without (ls) (sum_over_time(m[r]))
+    evalChain Cfg.fixed st ts none [.ot .sum r false, .agg .sum wo ls] = grouped .sum (pushGroupBy wo ls) r ∧
+    -- #3  sum_over_time((sum by/without (ls) (m))[r:])
+    evalChain Cfg.fixed st ts none [.agg .sum wo ls, .ot .sum r true] = grouped .sum (pushGroupBy wo ls) r := by
+  intro grouped
+  have hr' : ¬ (r > ts.lodStep ∨ (false = true ∧ r ≠ ts.lodStep)) := by
+    intro h; rcases h with h | h
+    · exact absurd h (not_lt.mpr hr)
+    · exact absurd h.1 (by decide)
+  refine ⟨?_, ?_, ?_, ?_⟩
+  · rw [rule0_expression st ts .sum .sumsec wo ls rfl]
+    exact pushed_query_is_aggregate st ts .sumsec aggSum rfl _ _
+  · rw [rule1_expression st ts .sum .sum false r rfl, if_neg hr']
+    exact pushed_query_is_aggregate st ts .sum aggSum rfl _ _
+  · rw [rule2_expression st ts .sum .sum .sum .sumsec .sum false wo ls r rfl rfl (by decide) hr (by intro h; cases h)]
+    exact pushed_query_is_aggregate st ts .sum aggSum rfl _ _
+  · rw [rule3_expression st ts .sum .sum .sum .sumsec .sum false wo ls r rfl rfl (by decide) hr (by intro h; cases h)]
+    exact pushed_query_is_aggregate st ts .sum aggSum rfl _ _
+
+/-- non-vacuity / the side condition matters: with r > step rule #1 does not fire and the engine evaluates the window -/
+example : evalChain Cfg.fixed exStore exTS none [.ot .sum 1 false] = queryStorage exStore exTS .sum allTags 1 ∧
+    evalChain Cfg.fixed exStore exTS none [.ot .sum 2 false] ≠ queryStorage exStore exTS .sum allTags 2 := by
+  decide +kernel
+
+/-- **the excluded case (known finding reduce-over-time-stdvar, reduce-over-time-stddev), with witness**: for two different events in one
+    bucket the pushed-down `what = stdvar` is the sample variance, twice the population variance funcStdVarOverTime computes
+    over the same two points — stdvar/stddev are NOT in `exactPush`. -/
+theorem stdvar_pushdown_is_not_population (a b : Rat) (hab : a ≠ b) (q l : Int) :
+    rowValue .stdvar q l (Row.merge (Row.ofEvent a) (Row.ofEvent b)) = 2 * varOf [a, b] ∧ varOf [a, b] ≠ 0 := by
+  have hne : a - b ≠ 0 := sub_ne_zero.mpr hab
+  have hsq : 0 < (a - b) * (a - b) := mul_self_pos.mpr hne
+  have hv : varOf [a, b] = (a - b) * (a - b) / 4 := by
+    simp only [varOf, ratSum, List.foldl, List.map, List.length]
+    norm_num
+    ring
+  constructor
+  · rw [hv]
+    simp only [rowValue, Row.merge, Row.ofEvent]
+    have h2 : ¬ ((1 : Rat) + 1 < 2) := by norm_num
+    simp only [h2, if_false]
+    have hx : (a * a + b * b - (a + b) * (a + b) / (1 + 1)) / (1 + 1 - 1) = (a - b) * (a - b) / 2 := by ring
+    have hnn : ¬ ((a * a + b * b - (a + b) * (a + b) / (1 + 1)) / (1 + 1 - 1) < 0) := by
+      rw [hx]
+      have : 0 < (a - b) * (a - b) / 2 := by positivity
+      linarith
+    show (if (a * a + b * b - (a + b) * (a + b) / (1 + 1)) / (1 + 1 - 1) < 0 then 0
+      else (a * a + b * b - (a + b) * (a + b) / (1 + 1)) / (1 + 1 - 1)) = 2 * ((a - b) * (a - b) / 4)
+    rw [if_neg hnn, hx]; ring
+  · rw [hv]; positivity
+example : exactPush .stdvar = none ∧ exactPush .stddev = none ∧ exactPush .avg = none := by decide
+
+
+
+/-! ### quantile for arbitrary q ∈ [0,1] -/
+
+theorem insertSorted_perm (x : Rat) (l : List Rat) : (insertSorted x l).Perm (x :: l) := by
+  induction l with
+  | nil => exact List.Perm.refl _
+  | cons y ys ih =>
+    unfold insertSorted
+    split
+    · exact List.Perm.refl _
+    · exact (List.Perm.cons y ih).trans (List.Perm.swap x y ys)
+
+theorem isort_perm (l : List Rat) : (isort l).Perm l := by
+  induction l with
+  | nil => exact List.Perm.refl _
+  | cons x xs ih =>
+    show (insertSorted x (isort xs)).Perm (x :: xs)
+    exact (insertSorted_perm x _).trans (List.Perm.cons x ih)
+
+theorem insertSorted_sorted (x : Rat) (l : List Rat) (h : l.Pairwise (· ≤ ·)) : (insertSorted x l).Pairwise (· ≤ ·) := by
+  induction l with
+  | nil => simp [insertSorted]
+  | cons y ys ih =>
+    unfold insertSorted
+    have hy := List.pairwise_cons.mp h
+    split
+    · rename_i hxy
+      refine List.pairwise_cons.mpr ⟨?_, h⟩
+      intro z hz
+      rcases List.mem_cons.mp hz with rfl | hz
+      · exact hxy
+      · exact le_trans hxy (hy.1 z hz)
+    · rename_i hxy
+      have hyx : y ≤ x := le_of_lt (not_le.mp hxy)
+      refine List.pairwise_cons.mpr ⟨?_, ih hy.2⟩
+      intro z hz
+      have : z ∈ x :: ys := (insertSorted_perm x ys).subset hz
+      rcases List.mem_cons.mp this with rfl | hz'
+      · exact hyx
+      · exact hy.1 z hz'
+
+theorem isort_sorted (l : List Rat) : (isort l).Pairwise (· ≤ ·) := by
+  induction l with
+  | nil => simp [isort]
+  | cons x xs ih => exact insertSorted_sorted x _ ih
+
+/-- **quantile is a function of the multiset of present points**: reordering the series of a group (Go map order, the
+    order the storage returns them in) or moving missing points around does not change it -/
+theorem aggQuantile_perm (q : Rat) (c1 c2 : List Val) (h : c1.Perm c2) : aggQuantile q c1 = aggQuantile q c2 := by
+  unfold aggQuantile
+  have hp : (present c1).Perm (present c2) := List.Perm.filterMap id h
+  have : isort (present c1) = isort (present c2) :=
+    List.Perm.eq_of_pairwise' (r := (· ≤ ·)) (isort_sorted _) (isort_sorted _)
+      ((isort_perm _).trans (hp.trans (isort_perm _).symm))
+  rw [this]
+
+/-- the rank and the fraction of the quantile position q·(n−1) -/
+theorem floor_bounds (x : Rat) (hx : 0 ≤ x) : ((x.floor.toNat : Nat) : Rat) ≤ x ∧ x < ((x.floor.toNat : Nat) : Rat) + 1 := by
+  have h0 : 0 ≤ x.floor := by
+    show 0 ≤ ⌊x⌋
+    exact Int.floor_nonneg.mpr hx
+  have hc : ((x.floor.toNat : Nat) : Rat) = ((x.floor : Int) : Rat) := by
+    have : ((x.floor.toNat : Nat) : Int) = x.floor := Int.toNat_of_nonneg h0
+    exact_mod_cast congrArg (fun z : Int => (z : Rat)) this
+  rw [hc]
+  exact ⟨Int.floor_le x, Int.lt_floor_add_one x⟩
+
+/-- **quantile(q, …) for every q ∈ [0,1] is the linear interpolation between the two closest ranks of the sorted present
+    points**: with n points x₀ ≤ … ≤ x_{n−1}, position p = q·(n−1), rank i = ⌊p⌋ and fraction φ = p − i ∈ [0,1), the value is
+    x_i + φ·(x_{i'} − x_i) with i' = min(n−1, i+1); it lies between x_i and x_{i'}. -/
+theorem quantile_def (q : Rat) (xs : List Rat) (hq0 : 0 ≤ q) (hq1 : q ≤ 1) (hne : xs ≠ []) (hs : xs.Pairwise (· ≤ ·)) :
+    let p : Rat := q * ((xs.length : Rat) - 1)
+    let i : Nat := p.floor.toNat
+    let i' : Nat := min (xs.length - 1) (i + 1)
+    let φ : Rat := p - (i : Rat)
+    i ≤ xs.length - 1 ∧ 0 ≤ φ ∧ φ < 1 ∧
+    quantileSorted q xs = some (xs.getD i 0 + φ * (xs.getD i' 0 - xs.getD i 0)) ∧
+    xs.getD i 0 ≤ xs.getD i 0 + φ * (xs.getD i' 0 - xs.getD i 0) ∧
+    xs.getD i 0 + φ * (xs.getD i' 0 - xs.getD i 0) ≤ xs.getD i' 0 := by
+  intro p i i' φ
+  have hn : 1 ≤ xs.length := List.length_pos_iff.mpr hne
+  have hn' : (1 : Rat) ≤ (xs.length : Rat) := by exact_mod_cast hn
+  have hp0 : 0 ≤ p := mul_nonneg hq0 (by linarith)
+  have hpn : p ≤ (xs.length : Rat) - 1 := by
+    have : q * ((xs.length : Rat) - 1) ≤ 1 * ((xs.length : Rat) - 1) := mul_le_mul_of_nonneg_right hq1 (by linarith)
+    linarith
+  obtain ⟨hfl, hfu⟩ := floor_bounds p hp0
+  have hi : i ≤ xs.length - 1 := by
+    have h1 : (i : Rat) ≤ (xs.length : Rat) - 1 := le_trans hfl hpn
+    have h2 : ((xs.length - 1 : Nat) : Rat) = (xs.length : Rat) - 1 := by
+      rw [Nat.cast_sub hn]; simp
+    have : (i : Rat) ≤ ((xs.length - 1 : Nat) : Rat) := by rw [h2]; exact h1
+    exact_mod_cast this
+  have hφ0 : 0 ≤ φ := by show 0 ≤ p - (i : Rat); linarith
+  have hφ1 : φ < 1 := by show p - (i : Rat) < 1; linarith
+  have hmono : xs.getD i 0 ≤ xs.getD i' 0 := by
+    by_cases hlt : i + 1 ≤ xs.length - 1
+    · have hi' : i' = i + 1 := by show min (xs.length - 1) (i + 1) = i + 1; omega
+      rw [hi']
+      have h1 : i < xs.length := by omega
+      have h2 : i + 1 < xs.length := by omega
+      rw [List.getD_eq_getElem?_getD, List.getD_eq_getElem?_getD, List.getElem?_eq_getElem h1, List.getElem?_eq_getElem h2]
+      exact List.pairwise_iff_getElem.mp hs i (i + 1) h1 h2 (by omega)
+    · have hi' : i' = i := by show min (xs.length - 1) (i + 1) = i; omega
+      rw [hi']
+  have hval : quantileSorted q xs = some (xs.getD i 0 + φ * (xs.getD i' 0 - xs.getD i 0)) := by
+    unfold quantileSorted
+    have : ¬ xs.length = 0 := by omega
+    simp only [this, if_false]
+    congr 1
+    by_cases hlt : i + 1 ≤ xs.length - 1
+    · have hi' : i' = i + 1 := by show min (xs.length - 1) (i + 1) = i + 1; omega
+      show xs.getD i 0 * ((i' : Rat) - p) + xs.getD i' 0 * (1 - ((i' : Rat) - p)) = _
+      rw [hi']; push_cast; show _ = xs.getD i 0 + (p - (i : Rat)) * (xs.getD (i + 1) 0 - xs.getD i 0); ring
+    · have hi' : i' = i := by show min (xs.length - 1) (i + 1) = i; omega
+      show xs.getD i 0 * ((i' : Rat) - p) + xs.getD i' 0 * (1 - ((i' : Rat) - p)) = _
+      rw [hi']; show _ = xs.getD i 0 + (p - (i : Rat)) * (xs.getD i 0 - xs.getD i 0); ring
+  refine ⟨hi, hφ0, hφ1, hval, ?_, ?_⟩
+  · nlinarith
+  · nlinarith
+
+/-- the operator: quantile of a column = `quantile_def` on the sorted present points -/
+theorem aggQuantile_sorted_present (q : Rat) (col : List Val) :
+    aggQuantile q col = quantileSorted q (isort (present col)) ∧ (isort (present col)).Pairwise (· ≤ ·) ∧
+    (isort (present col)).Perm (present col) := ⟨rfl, isort_sorted _, isort_perm _⟩
+
+example : aggQuantile (3/4) [some 10, none, some 40, some 20] = some 30 ∧
+    aggQuantile (3/4) [some 40, some 20, none, none, some 10] = some 30 := by decide +kernel
+
+/-! ### topk / bottomk: per-series weight semantics -/
+
+/-- the series kept from one group: the first `k` after ordering the (weight, series) pairs -/
+def selectTop (desc : Bool) (k : Nat) (ws : List (Rat × Series)) : List (Rat × Series) := (ws.foldr (insertBy desc) []).take k
+
+/-- `a` may stand before `b` -/
+def before (desc : Bool) (a b : Rat × Series) : Prop := if desc then b.1 ≤ a.1 else a.1 ≤ b.1
+
+/-- the comparison insertBy makes -/
+def goesFirst (desc : Bool) (x y : Rat × Series) : Bool := if desc then decide (y.1 < x.1) else decide (x.1 < y.1)
+
+theorem insertBy_cons (desc : Bool) (x y : Rat × Series) (ys : List (Rat × Series)) :
+    insertBy desc x (y :: ys) = if goesFirst desc x y then x :: y :: ys else y :: insertBy desc x ys := rfl
+
+theorem insertBy_perm (desc : Bool) (x : Rat × Series) (l : List (Rat × Series)) : (insertBy desc x l).Perm (x :: l) := by
+  induction l with
+  | nil => exact List.Perm.refl _
+  | cons y ys ih =>
+    rw [insertBy_cons]
+    by_cases hc : goesFirst desc x y = true
+    · simp only [hc, if_true]; exact List.Perm.refl _
+    · simp only [hc, if_false]
+      exact (List.Perm.cons y ih).trans (List.Perm.swap x y ys)
+
+theorem before_trans (desc : Bool) (a b c : Rat × Series) (h1 : before desc a b) (h2 : before desc b c) : before desc a c := by
+  unfold before at *
+  cases desc <;> simp at * <;> linarith
+
+theorem goesFirst_before (desc : Bool) (x y : Rat × Series) (h : goesFirst desc x y = true) : before desc x y := by
+  unfold goesFirst at h; unfold before
+  cases desc <;> simp at h ⊢ <;> exact le_of_lt h
+
+theorem not_goesFirst_before (desc : Bool) (x y : Rat × Series) (h : ¬ goesFirst desc x y = true) : before desc y x := by
+  unfold goesFirst at h; unfold before
+  cases desc <;> simp at h ⊢ <;> exact h
+
+theorem insertBy_sorted (desc : Bool) (x : Rat × Series) (l : List (Rat × Series)) (h : l.Pairwise (before desc)) :
+    (insertBy desc x l).Pairwise (before desc) := by
+  induction l with
+  | nil => simp [insertBy]
+  | cons y ys ih =>
+    rw [insertBy_cons]
+    have hy := List.pairwise_cons.mp h
+    by_cases hc : goesFirst desc x y = true
+    · simp only [hc, if_true]
+      have hxy := goesFirst_before desc x y hc
+      refine List.pairwise_cons.mpr ⟨?_, h⟩
+      intro z hz
+      rcases List.mem_cons.mp hz with rfl | hz
+      · exact hxy
+      · exact before_trans desc x y z hxy (hy.1 z hz)
+    · simp only [hc, if_false]
+      have hyx := not_goesFirst_before desc x y hc
+      refine List.pairwise_cons.mpr ⟨?_, ih hy.2⟩
+      intro z hz
+      have : z ∈ x :: ys := (insertBy_perm desc x ys).subset hz
+      rcases List.mem_cons.mp this with rfl | hz'
+      · exact hyx
+      · exact hy.1 z hz'
+
+theorem sortBy_spec (desc : Bool) (ws : List (Rat × Series)) :
+    (ws.foldr (insertBy desc) []).Perm ws ∧ (ws.foldr (insertBy desc) []).Pairwise (before desc) := by
+  induction ws with
+  | nil => exact ⟨List.Perm.refl _, List.Pairwise.nil⟩
+  | cons x xs ih =>
+    exact ⟨(insertBy_perm desc x _).trans (List.Perm.cons x ih.1), insertBy_sorted desc x _ ih.2⟩
+
+/-- **topk_def / bottomk_def** (per-series weight semantics, one group): the kept series are min(k, n) of the group's n
+    series, kept and dropped series together are exactly the group, and no dropped series is heavier (topk) / lighter
+    (bottomk) than a kept one. -/
+theorem topk_def (desc : Bool) (k : Nat) (ws : List (Rat × Series)) :
+    let kept := selectTop desc k ws
+    let dropped := (ws.foldr (insertBy desc) []).drop k
+    (kept ++ dropped).Perm ws ∧ kept.length = min k ws.length ∧
+    ∀ a ∈ kept, ∀ b ∈ dropped, (if desc then b.1 ≤ a.1 else a.1 ≤ b.1) := by
+  intro kept dropped
+  obtain ⟨hperm, hsorted⟩ := sortBy_spec desc ws
+  refine ⟨?_, ?_, ?_⟩
+  · show ((ws.foldr (insertBy desc) []).take k ++ (ws.foldr (insertBy desc) []).drop k).Perm ws
+    rw [List.take_append_drop]; exact hperm
+  · show ((ws.foldr (insertBy desc) []).take k).length = min k ws.length
+    rw [List.length_take, hperm.length_eq]
+  · intro a ha b hb
+    have h := hsorted
+    rw [← List.take_append_drop k (ws.foldr (insertBy desc) [])] at h
+    exact (List.pairwise_append.mp h).2.2 a ha b hb
+
+/-- funcTopK is `selectTop` of every group's (weight, series) pairs -/
+theorem topK_eq (ts : TS) (desc : Bool) (k : Int) (wo : Bool) (ls : List Nat) (ss : List Series) (hk : 0 < k) :
+    topK ts desc k wo ls ss =
+      let ss' := if ts.viewStart = ts.viewEnd then ss else ss.filter (hasPresentInView ts)
+      ((dedupKeys (ss'.map (fun s => keyOf wo ls s.tags))).map (fun key =>
+        (selectTop desc k.toNat ((weights ts (ss'.filter (fun s => keyOf wo ls s.tags = key))).zip
+          (ss'.filter (fun s => keyOf wo ls s.tags = key)))).map (·.2))).flatten := by
+  unfold topK selectTop
+  have : ¬ k ≤ 0 := by omega
+  simp only [this, if_false]
+
+example :
+    selectTop true 2 [(3, ⟨[(1, 1)], []⟩), (9, ⟨[(1, 2)], []⟩), (5, ⟨[(1, 3)], []⟩)] = [(9, ⟨[(1, 2)], []⟩), (5, ⟨[(1, 3)], []⟩)] ∧
+    selectTop false 1 [(3, ⟨[(1, 1)], []⟩), (9, ⟨[(1, 2)], []⟩), (5, ⟨[(1, 3)], []⟩)] = [(3, ⟨[(1, 1)], []⟩)] := by
   decide +kernel
 
 
